@@ -533,7 +533,7 @@ def api_stream(ck, qr, numpy):
                         ck.case(("api-sec-rev", s, tag), nontrivial=True, kind="secularize-reversible", theory=theory)
                 except Exception as e:
                     ck.fail("raises:secular:reversible:%s" % tag, "reversible secularisation raised %r" % (e,), inp)
-            if not opts.get("secular_relaxation") and d_site.ndim == 4 and s % 2 == 1:
+            if not opts.get("secular_relaxation") and ((d_site.ndim == 4 and s % 2 == 1) or (d_site.ndim == 5 and theory != "standard_Redfield")):
                 # the newer interface (secularize(legacy=False) -> Secular.secularize on the data) and its second call
                 try:
                     RT2, _h2 = (agg.get_RelaxationTensor(ta, relaxation_theory=theory, **o) if "coupling_cutoff" not in o else (None, None))
@@ -543,7 +543,11 @@ def api_stream(ck, qr, numpy):
                         b4 = numpy.array(RT2.data).copy()
                         RT2.secularize(legacy=False)
                         a4 = numpy.array(RT2.data).copy()
-                        secular_oracle(numpy, b4, a4, ck, inp, "new-interface:" + tag)
+                        if b4.ndim == 4:
+                            secular_oracle(numpy, b4, a4, ck, inp, "new-interface:" + tag)
+                        else:
+                            for tt in sorted(set([0, 1, b4.shape[0] // 2, b4.shape[0] - 1])):
+                                secular_oracle(numpy, b4[tt], a4[tt], ck, dict(inp, time_index=tt), "new-interface:all-times:" + tag)
                         RT2.secularize(legacy=False)
                         if numpy.abs(numpy.array(RT2.data) - a4).max() > 0:
                             ck.fail("secular:new-interface:second-call:" + tag, "a second secularize(legacy=False) changed the tensor", inp)
